@@ -337,12 +337,12 @@ def campaign(run: common.Run) -> None:
         check_slurp(run, expr, doc, b, run.hyp_fail)
 
     docs = st.lists(doc_strategy(), max_size=8 if not q else 5)
-    common.drive(run, body_null, {"c": null_case()}, 500 if q else 8000, seed_salt=1)
+    common.drive(run, body_null, {"c": null_case()}, 500 if q else 3000, seed_salt=1)
     common.drive(run, body_stream, {"expr": st.sampled_from(STREAM_EXPRS), "docs": docs, "b": st.booleans(), "mode": st.sampled_from(["package-default", "package-default", "package:jq", "package:pk"])},
-                 180 if q else 6000, seed_salt=2)
-    common.drive(run, body_doc, {"expr": st.sampled_from(DOC_EXPRS), "docs": docs, "b": st.booleans(), "name": st.sampled_from(["doc", "jq", "r"])}, 90 if q else 4000, seed_salt=3)
+                 180 if q else 1500, seed_salt=2)
+    common.drive(run, body_doc, {"expr": st.sampled_from(DOC_EXPRS), "docs": docs, "b": st.booleans(), "name": st.sampled_from(["doc", "jq", "r"])}, 90 if q else 800, seed_salt=3)
     objs = st.dictionaries(st.sampled_from(["name", "n", "l"]), st.one_of(st.integers(0, 3), st.lists(st.integers(0, 2), max_size=2), st.sampled_from(["a", "b"])), max_size=3)
-    common.drive(run, body_slurp, {"expr": st.sampled_from(STREAM_EXPRS), "doc": objs, "b": st.booleans()}, 100 if q else 2000, seed_salt=4)
+    common.drive(run, body_slurp, {"expr": st.sampled_from(STREAM_EXPRS), "doc": objs, "b": st.booleans()}, 100 if q else 500, seed_salt=4)
 
 
 def subprocess_sample(run: common.Run, report) -> None:
